@@ -21,6 +21,17 @@
 //!      freshly received X;
 //!   6. every session of the honest flow ends with `Ok`.
 //!
+//! `two_topics`: the same hub, but its 3-6 live sessions are spread over 2-3 *topics* whose log sets
+//! are identical (every operation of the pool belongs to every topic), so the same operation
+//! legitimately arrives over sessions of different topics. The manager's de-duplication buffer is
+//! shared by all topics (manager docs: "per-subscription deduplication of received operations
+//! across all sessions for this manager"), the forwarding set is per topic. Rules 1, 2, 5, 6 are
+//! unchanged (5 counts over all topics: at most once overall); rule 4 is evaluated per topic: an
+//! operation freshly received by a session of topic T is owed to every other session of T, no
+//! matter whether the manager has already seen it on a session of another topic. Rule 3 is *not*
+//! narrowed to the topic (the statement does not say "only on that topic"); a write whose only
+//! cause is a fresh receipt on another topic is merely labelled.
+//!
 //! `small_window`: one session built with `new_with_capacity(c)`, c in 1..=4, fed remote `Live`
 //! messages and local payloads over a pool of 6 operations. A reference ring of the last `c`
 //! accepted hashes (the semantics C24 establishes for the buffer) is stepped along the transport
@@ -55,13 +66,16 @@ type Handle = Pin<Box<dyn Sink<ToSync<Op>, Error = TopicSyncManagerError>>>;
 type SessionResult = Result<(), String>;
 
 const MAX_SESSIONS: usize = 4;
+/// Upper bound of sessions (= remotes) in the `two_topics` part.
+const MAX_REMOTES: usize = 6;
+const MAX_TOPICS: usize = 3;
 const FRESH: usize = 6;
 
 struct Pools {
     /// Operations nobody holds at the start (third-party author).
     fresh: Vec<Op>,
     /// Two operations per remote, offered by that remote during its sync phase.
-    remote_sync: [Vec<Op>; MAX_SESSIONS],
+    remote_sync: Vec<Vec<Op>>,
     /// The hub's own log.
     hub: Vec<Op>,
     by_header: BTreeMap<Vec<u8>, Hash>,
@@ -71,12 +85,7 @@ fn pools() -> &'static Pools {
     static P: OnceLock<Pools> = OnceLock::new();
     P.get_or_init(|| {
         let fresh = chain(&key(30), 0, FRESH as u32, 30);
-        let remote_sync = [
-            chain(&key(20), 0, 2, 20),
-            chain(&key(21), 0, 2, 21),
-            chain(&key(22), 0, 2, 22),
-            chain(&key(23), 0, 2, 23),
-        ];
+        let remote_sync: Vec<Vec<Op>> = (0..MAX_REMOTES as u8).map(|r| chain(&key(20 + r), 0, 2, 20 + r)).collect();
         let hub = chain(&key(40), 0, 2, 40);
         let mut by_header = BTreeMap::new();
         for op in fresh.iter().chain(remote_sync.iter().flatten()).chain(hub.iter()) {
@@ -129,6 +138,38 @@ struct Case {
     /// first of them, it has left the receiving session's own window. Nothing but the final
     /// fixpoint and the orderly close follows, so no window-relative assertion is affected.
     flood: Option<u16>,
+}
+
+/// What `run_flow` needs to know; built from a `Case` (one topic) or a `TopicsCase`.
+struct Spec<'c> {
+    /// Topic index of every session; its length is the number of sessions.
+    topic_of: Vec<usize>,
+    subscribe_first: bool,
+    lazy_sync: bool,
+    hub_ops: usize,
+    remote_sync_ops: Vec<usize>,
+    steps: &'c [Step],
+    flood: Option<u16>,
+}
+
+impl Case {
+    fn spec(&self) -> Spec<'_> {
+        let n = (self.sessions as usize).clamp(2, MAX_SESSIONS);
+        Spec {
+            topic_of: vec![0; n],
+            subscribe_first: self.subscribe_first,
+            lazy_sync: self.lazy_sync,
+            hub_ops: (self.hub_ops as usize).min(2),
+            remote_sync_ops: self.remote_sync_ops[..n].iter().map(|k| (*k as usize).min(2)).collect(),
+            steps: &self.steps,
+            flood: self.flood,
+        }
+    }
+}
+
+/// Topic ids of the hub; index 0 is the topic of the one-topic parts.
+fn hub_topic(i: usize) -> Topic {
+    topic([23u8, 26, 27][i])
 }
 
 fn op_msg(op: &Op) -> Msg {
@@ -244,19 +285,25 @@ struct Flow {
     manager_ops: Vec<Hash>,
     results: Vec<Option<SessionResult>>,
     hub_store: BTreeSet<Hash>,
+    topic_of: Vec<usize>,
 }
 
-fn run_flow(case: &Case) -> Result<Flow, String> {
+fn run_flow(case: &Spec) -> Result<Flow, String> {
     let p = pools();
-    let n = (case.sessions as usize).clamp(2, MAX_SESSIONS);
-    let t = topic(23);
+    let n = case.topic_of.len();
+    let topics = case.topic_of.iter().max().map_or(1, |m| m + 1);
     let store = MemStore::new();
-    store.associate_now(&t, &key(40).verifying_key(), 0);
-    store.associate_now(&t, &key(30).verifying_key(), 0);
-    for r in 0..n {
-        store.associate_now(&t, &key(20 + r as u8).verifying_key(), 0);
+    // Every topic of the hub covers the same logs: each operation of the pool belongs to each
+    // topic, so it may arrive over a session of any topic.
+    for i in 0..topics {
+        let t = hub_topic(i);
+        store.associate_now(&t, &key(40).verifying_key(), 0);
+        store.associate_now(&t, &key(30).verifying_key(), 0);
+        for r in 0..n {
+            store.associate_now(&t, &key(20 + r as u8).verifying_key(), 0);
+        }
     }
-    let hub_ops = (case.hub_ops as usize).min(2);
+    let hub_ops = case.hub_ops;
     let mut hub_store = BTreeSet::new();
     for op in &p.hub[..hub_ops] {
         store.insert(op);
@@ -275,7 +322,7 @@ fn run_flow(case: &Case) -> Result<Flow, String> {
     let mut pending: Vec<VecDeque<Msg>> = Vec::new();
     for r in 0..n {
         let config = SessionConfig {
-            topic: t,
+            topic: hub_topic(case.topic_of[r]),
             remote: key(20 + r as u8).verifying_key(),
             live_mode: true,
         };
@@ -297,7 +344,7 @@ fn run_flow(case: &Case) -> Result<Flow, String> {
         // The remote's sync phase: it knows nothing of the hub's log and offers 0-2 operations.
         let mut q = VecDeque::new();
         q.push_back(TopicLogSyncMessage::Sync(LogSyncMessage::Have(Default::default())));
-        let k = (case.remote_sync_ops[r] as usize).min(2);
+        let k = case.remote_sync_ops[r];
         if k > 0 {
             let bytes: u32 = p.remote_sync[r][..k]
                 .iter()
@@ -354,12 +401,12 @@ fn run_flow(case: &Case) -> Result<Flow, String> {
     // this case offers, the hub's own operations.
     let mut pool: Vec<&Op> = p.fresh.iter().collect();
     for r in 0..n {
-        pool.extend(p.remote_sync[r][..(case.remote_sync_ops[r] as usize).min(2)].iter());
+        pool.extend(p.remote_sync[r][..case.remote_sync_ops[r]].iter());
     }
     pool.extend(p.hub[..hub_ops].iter());
 
     let mut published: Vec<BTreeSet<Hash>> = vec![BTreeSet::new(); n];
-    for step in &case.steps {
+    for step in case.steps {
         match *step {
             Step::Inject { remote, op } => {
                 let r = idx(remote, n);
@@ -437,6 +484,7 @@ fn run_flow(case: &Case) -> Result<Flow, String> {
         manager_ops,
         results,
         hub_store,
+        topic_of: case.topic_of.clone(),
     })
 }
 
@@ -449,9 +497,34 @@ struct Seen {
     out_before_in: bool,
 }
 
-fn check_flow(case: &Case) -> CaseResult {
+/// What a checked flow exercised (for labels and the non-trivial rules).
+#[derive(Default)]
+struct Stats {
+    sessions: usize,
+    dup_from_two: bool,
+    raced: bool,
+    forwarded: bool,
+    published: bool,
+    hub_store: bool,
+    /// Some operation was freshly received by sessions of two or more different topics.
+    fresh_on_two_topics: bool,
+    /// ... and on at least two of those topics another session was owed it (never consumed it itself).
+    owed_on_two_topics: bool,
+    /// Some session consumed an operation from its remote that the manager had been handed by a session of
+    /// another topic as well, while a session of its own topic had already written it (duplicate within the topic
+    /// and across topics).
+    dup_within_and_across: bool,
+    /// A session wrote an operation whose only cause is a fresh receipt on *another* topic (never expected with the
+    /// per-topic forwarding of the code; not asserted, the statement does not forbid it).
+    cross_topic_write: bool,
+    topics_with_two_sessions: usize,
+}
+
+fn check_spec(case: &Spec) -> Result<Stats, String> {
     let flow = run_flow(case)?;
     let n = flow.traces.len();
+    let topic_of = &flow.topic_of;
+    let topics = topic_of.iter().max().map_or(1, |m| m + 1);
 
     for (s, r) in flow.results.iter().enumerate() {
         match r {
@@ -511,42 +584,66 @@ fn check_flow(case: &Case) -> CaseResult {
     }
     all_ops.extend(flow.manager_ops.iter().copied());
 
-    let mut dup_from_two = false;
-    let mut raced = false;
-    let mut forwarded = false;
+    let mut st = Stats {
+        sessions: n,
+        published: flow.published.iter().any(|p| !p.is_empty()),
+        hub_store: !flow.hub_store.is_empty(),
+        topics_with_two_sessions: (0..topics).filter(|t| topic_of.iter().filter(|u| *u == t).count() >= 2).count(),
+        ..Stats::default()
+    };
     for x in &all_ops {
         let get = |s: usize| seen[s].get(x).cloned().unwrap_or_default();
+        // Sessions which freshly received x, all of them and per topic.
         let fresh_at: Vec<usize> = (0..n).filter(|s| get(*s).fresh).collect();
         let consumers = (0..n).filter(|s| get(*s).ins > 0).count();
-        dup_from_two |= consumers >= 2;
+        st.dup_from_two |= consumers >= 2;
+        let fresh_topics: BTreeSet<usize> = fresh_at.iter().map(|f| topic_of[*f]).collect();
+        st.fresh_on_two_topics |= fresh_topics.len() >= 2;
+        let mut owed_topics: BTreeSet<usize> = BTreeSet::new();
         for s in 0..n {
             let e = get(s);
-            let fresh_elsewhere = fresh_at.iter().any(|f| *f != s);
+            // The forwarding set of a receipt is the topic of the receiving session.
+            let fresh_on_topic: Vec<usize> =
+                fresh_at.iter().copied().filter(|f| *f != s && topic_of[*f] == topic_of[s]).collect();
+            let fresh_on_other_topic = fresh_at.iter().any(|f| topic_of[*f] != topic_of[s]);
             let is_published = flow.published[s].contains(x);
             let in_hub_store = flow.hub_store.contains(x);
-            raced |= e.out_before_in;
+            st.raced |= e.out_before_in;
             if e.outs > 0 {
                 ensure!(
-                    is_published || fresh_elsewhere || in_hub_store,
+                    is_published || !fresh_on_topic.is_empty() || fresh_on_other_topic || in_hub_store,
                     "session {s} wrote operation {} although it was neither published to it, nor freshly received by another \
                      session, nor in the hub's store",
                     x.to_hex()
                 );
-                forwarded |= fresh_elsewhere && !is_published && !in_hub_store;
+                st.forwarded |= !fresh_on_topic.is_empty() && !is_published && !in_hub_store;
+                st.cross_topic_write |= fresh_on_topic.is_empty() && !is_published && !in_hub_store;
             }
-            if e.ins == 0 && (fresh_elsewhere || is_published) {
+            if e.ins == 0 && (!fresh_on_topic.is_empty() || is_published) {
                 ensure!(
                     e.outs == 1,
-                    "operation {} ({}) was never written to the remote of session {s}, which did not have it",
+                    "operation {} ({}) was never written to the remote of session {s} (topic {}), which did not have it{}",
                     x.to_hex(),
-                    if fresh_elsewhere {
-                        format!("freshly received by session(s) {fresh_at:?}")
+                    if !fresh_on_topic.is_empty() {
+                        format!("freshly received by session(s) {fresh_on_topic:?} of the same topic")
                     } else {
                         "published to this session".to_string()
+                    },
+                    topic_of[s],
+                    if fresh_on_other_topic {
+                        format!("; sessions {fresh_at:?} with topics {:?} freshly received it", fresh_at.iter().map(|f| topic_of[*f]).collect::<Vec<_>>())
+                    } else {
+                        String::new()
                     }
                 );
+                if !fresh_on_topic.is_empty() {
+                    owed_topics.insert(topic_of[s]);
+                }
             }
+            st.dup_within_and_across |= e.ins > 0 && fresh_on_other_topic && !fresh_on_topic.is_empty();
         }
+        st.owed_on_two_topics |= owed_topics.len() >= 2;
+        // The manager's buffer is one for all sessions of all topics: at most once overall.
         let reported = flow.manager_ops.iter().filter(|h| *h == x).count();
         ensure!(
             reported <= 1,
@@ -562,17 +659,22 @@ fn check_flow(case: &Case) -> CaseResult {
             );
         }
     }
+    Ok(st)
+}
 
-    Ok(CaseOk::nontrivial(dup_from_two && n >= 3)
-        .label_if(dup_from_two, "operation_from_two_or_more_remotes")
-        .label_if(raced, "forward_written_before_own_remote_delivered_it")
-        .label_if(forwarded, "forwarded_to_other_session")
-        .label_if(flow.published.iter().any(|p| !p.is_empty()), "local_publish")
+fn check_flow(case: &Case) -> CaseResult {
+    let st = check_spec(&case.spec())?;
+    let n = st.sessions;
+    Ok(CaseOk::nontrivial(st.dup_from_two && n >= 3)
+        .label_if(st.dup_from_two, "operation_from_two_or_more_remotes")
+        .label_if(st.raced, "forward_written_before_own_remote_delivered_it")
+        .label_if(st.forwarded, "forwarded_to_other_session")
+        .label_if(st.published, "local_publish")
         .label_if(n == 2, "sessions_2")
         .label_if(n == 3, "sessions_3")
         .label_if(n == 4, "sessions_4")
         .label_if(case.lazy_sync, "sync_interleaved_with_flow")
-        .label_if(!flow.hub_store.is_empty(), "hub_store_synced_out")
+        .label_if(st.hub_store, "hub_store_synced_out")
         .label_if(case.remote_sync_ops.iter().take(n).any(|k| *k > 0), "remote_sync_operations")
         .label_if(!case.subscribe_first, "subscribed_after_sessions")
         .label_if(case.flood.is_some(), "flood_beyond_window"))
@@ -584,6 +686,71 @@ fn check_flood(case: &Case) -> CaseResult {
         nontrivial: case.flood.is_some(),
         ..ok
     })
+}
+
+// ---------------------------------------------------------------------------------------------
+// two_topics
+
+#[derive(Clone, Debug, Serialize, Deserialize)]
+struct TopicsCase {
+    /// Topic index (0..3) of every session; 3-6 sessions.
+    topic_of: Vec<u8>,
+    subscribe_first: bool,
+    lazy_sync: bool,
+    hub_ops: u8,
+    remote_sync_ops: [u8; MAX_REMOTES],
+    steps: Vec<Step>,
+}
+
+impl TopicsCase {
+    fn spec(&self) -> Spec<'_> {
+        let mut raw: Vec<usize> = self.topic_of.iter().take(MAX_REMOTES).map(|t| *t as usize % MAX_TOPICS).collect();
+        while raw.len() < 3 {
+            raw.push(raw.len() % 2);
+        }
+        // Renumber the topics by first appearance, so that the indices in use are 0..k.
+        let mut order: Vec<usize> = Vec::new();
+        for t in &raw {
+            if !order.contains(t) {
+                order.push(*t);
+            }
+        }
+        let topic_of: Vec<usize> = raw.iter().map(|t| order.iter().position(|o| o == t).unwrap()).collect();
+        let n = topic_of.len();
+        Spec {
+            topic_of,
+            subscribe_first: self.subscribe_first,
+            lazy_sync: self.lazy_sync,
+            hub_ops: (self.hub_ops as usize).min(2),
+            remote_sync_ops: self.remote_sync_ops[..n].iter().map(|k| (*k as usize).min(2)).collect(),
+            steps: &self.steps,
+            flood: None,
+        }
+    }
+}
+
+fn check_topics(case: &TopicsCase) -> CaseResult {
+    let spec = case.spec();
+    let topics = spec.topic_of.iter().max().map_or(1, |m| m + 1);
+    let st = check_spec(&spec)?;
+    Ok(CaseOk::nontrivial(st.owed_on_two_topics)
+        .label_if(st.fresh_on_two_topics, "operation_freshly_received_on_two_or_more_topics")
+        .label_if(st.owed_on_two_topics, "cross_topic_duplicate_owed_on_both_topics")
+        .label_if(st.dup_within_and_across, "duplicate_within_topic_and_across_topics")
+        .label_if(st.dup_from_two, "operation_from_two_or_more_remotes")
+        .label_if(st.forwarded, "forwarded_to_other_session")
+        .label_if(st.raced, "forward_written_before_own_remote_delivered_it")
+        .label_if(st.cross_topic_write, "written_with_cause_on_other_topic_only")
+        .label_if(st.published, "local_publish")
+        .label_if(topics == 1, "topics_1")
+        .label_if(topics == 2, "topics_2")
+        .label_if(topics == 3, "topics_3")
+        .label_if(st.topics_with_two_sessions >= 2, "two_or_more_topics_with_two_or_more_sessions")
+        .label_if(st.sessions <= 4, "sessions_3_4")
+        .label_if(st.sessions >= 5, "sessions_5_6")
+        .label_if(case.lazy_sync, "sync_interleaved_with_flow")
+        .label_if(st.hub_store, "hub_store_synced_out")
+        .label_if(!case.subscribe_first, "subscribed_after_sessions"))
 }
 
 // ---------------------------------------------------------------------------------------------
@@ -622,7 +789,7 @@ fn check_window(case: &WinCase) -> CaseResult {
     sh.push(Item::Msg(TopicLogSyncMessage::Sync(LogSyncMessage::Have(Default::default()))));
     sh.push(Item::Msg(TopicLogSyncMessage::Sync(LogSyncMessage::Done)));
     drive(&mut st, &mut budget)?;
-    for step in &case.steps {
+    for step in case.steps {
         match *step {
             WinStep::Remote(i) => sh.push(Item::Msg(live_msg(&p.fresh[i as usize % FRESH]))),
             WinStep::Local(i) => {
@@ -732,6 +899,49 @@ fn case_strategy(max_steps: usize, flood: bool) -> impl Strategy<Value = Case> {
         })
 }
 
+fn topics_strategy(max_steps: usize) -> impl Strategy<Value = TopicsCase> {
+    // Mostly two topics with two or three sessions each (the shape in which a duplicate across topics leaves
+    // somebody owed on both), sometimes an arbitrary assignment over up to three topics.
+    let topic_of = prop_oneof![
+        4 => (2usize..4, 2usize..4, any::<u64>()).prop_map(|(a, b, mix)| {
+            let mut v: Vec<u8> = vec![0; a];
+            v.extend(vec![1u8; b]);
+            // Deterministic interleaving of the two groups (session ids are positions).
+            let mut mix = mix;
+            for i in (1..v.len()).rev() {
+                let j = (mix % (i as u64 + 1)) as usize;
+                mix /= i as u64 + 1;
+                v.swap(i, j);
+            }
+            v
+        }),
+        2 => prop::collection::vec(0u8..MAX_TOPICS as u8, 3..=MAX_REMOTES),
+    ];
+    let step = prop_oneof![
+        6 => (any::<u16>(), any::<u16>()).prop_map(|(remote, op)| Step::Inject { remote, op }),
+        1 => (any::<u16>(), 1u8..64).prop_map(|(op, mask)| Step::Publish { op, mask }),
+        5 => any::<u16>().prop_map(|remote| Step::Relay { remote }),
+        2 => any::<u16>().prop_map(|s| Step::RunSession { s }),
+        3 => Just(Step::PollManager),
+    ];
+    (
+        topic_of,
+        any::<bool>(),
+        prop::bool::weighted(0.3),
+        0u8..3,
+        [0u8..3, 0u8..3, 0u8..3, 0u8..3, 0u8..3, 0u8..3],
+        prop::collection::vec(step, 1..max_steps),
+    )
+        .prop_map(|(topic_of, subscribe_first, lazy_sync, hub_ops, remote_sync_ops, steps)| TopicsCase {
+            topic_of,
+            subscribe_first,
+            lazy_sync,
+            hub_ops,
+            remote_sync_ops,
+            steps,
+        })
+}
+
 fn window_strategy(max_steps: usize) -> impl Strategy<Value = WinCase> {
     let s = prop_oneof![(0u8..FRESH as u8).prop_map(WinStep::Remote), (0u8..FRESH as u8).prop_map(WinStep::Local)];
     (1u8..5, prop::collection::vec(s, 1..max_steps)).prop_map(|(capacity, steps)| WinCase { capacity, steps })
@@ -741,6 +951,11 @@ pub fn run(mut ctx: Ctx) -> ! {
     ctx.assume(
         "hub store is the in-memory LogStore/TopicStore; every remote is distinct; the manager event stream is subscribed \
          before any session is polled; flows stay far below the default de-duplication window of 1024",
+    );
+    ctx.assume(
+        "two_topics: all topics of the hub resolve to the same logs, i.e. every generated operation belongs to every topic it \
+         arrives on (sessions do not check topic membership yet, see the TODO in topic_log_sync.rs); forwarding is owed per \
+         topic, the manager stream's at-most-once is over all topics of the manager (TopicSyncManager docs)",
     );
     ctx.assume(
         "small_window steps a reference ring of exactly `capacity` accepted hashes (the buffer semantics property C24 \
@@ -773,6 +988,21 @@ pub fn run(mut ctx: Ctx) -> ! {
         .shrink_iters(60),
         || case_strategy(12, true),
         check_flood,
+    );
+    ctx.run_prop(
+        Part::new(
+            "two_topics",
+            "hub_forwarding flows on a manager whose 3-6 live sessions are spread over 2-3 topics with identical log sets \
+             (mostly 2 topics with 2-3 sessions each), so one operation arrives over sessions of different topics; 1-60 \
+             (thorough 120) steps; rule 4 per topic (a fresh receipt on topic T is owed to every other session of T even if the \
+             manager saw the operation on another topic before), manager stream at most once over all topics; non-trivial = \
+             some operation was freshly received on >=2 topics and on >=2 of them another session was owed it",
+            4_000,
+            80_000,
+        )
+        .min_nontrivial(0.3),
+        move || topics_strategy(max_steps),
+        check_topics,
     );
     ctx.run_prop(
         Part::new(
